@@ -71,6 +71,36 @@ MUTANTS = [
         {"file": "pce500/display/hd61202.py", "old": "    image.paste(images[1].crop((0, 0, right_width, height)), (0, 0))\n", "new": "    upper_right = images[1].crop((0, 0, right_width, height))\n    image.paste(upper_right, (0, 0))\n"},
         {"file": "pce500/display/hd61202.py", "old": "            self.vram[self.state.page][self.state.y_address] = data\n", "new": "            page, col = self.state.page, self.state.y_address\n            self.vram[page][col] = data\n"}]},
 
+    # --- round 4: behaviour-preserving variants around the rules added for the fourth batch of seeded changes --------------
+    {"id": "neutral/loop-backedge-not-equal", "kind": "neutral", "props": ["C04", "C03", "C06", "C07"], "edits": [
+        {"file": P + "instr/opcodes.py", "old": "    cond = il.compare_equal(width, loop_reg.lift(il), il.const(width, 0))\n    il.append(il.if_expr(cond, if_true, if_false))\n",
+         "new": "    more = il.compare_not_equal(width, loop_reg.lift(il), il.const(width, 0))\n    il.append(il.if_expr(more, if_false, if_true))\n"}]},
+    {"id": "neutral/section-attribute-reset-in-both-passes", "kind": "neutral", "props": ["C10"],
+     "cmd": "patch -p1 -s < /verif/seeded/C10/12/patch.diff && /venv/bin/python -c \"p='sc62015/pysc62015/sc_asm.py'; s=open(p).read(); a='        self.instructions_cache.clear()\\n\\n        for i, line in enumerate(program_ast'; assert a in s; s=s.replace(a, '        self.instructions_cache.clear()\\n        self.current_section = self.DEFAULT_SECTION\\n\\n        for i, line in enumerate(program_ast', 1); open(p,'w').write(s)\""},
+    {"id": "neutral/addr20-class-constant", "kind": "neutral", "props": ["C17", "C08"], "edits": [
+        {"file": P + "emulator.py", "old": "    def get(self, reg: RegisterName) -> int:\n        if reg in self.BASE:\n            val = self._values[reg]\n            if reg in (\n                RegisterName.PC,\n                RegisterName.X,\n                RegisterName.Y,\n                RegisterName.U,\n                RegisterName.S,\n            ):",
+         "new": "    _ADDR20 = {RegisterName.PC, RegisterName.X, RegisterName.Y, RegisterName.U, RegisterName.S}\n\n    def get(self, reg: RegisterName) -> int:\n        if reg in self.BASE:\n            val = self._values[reg]\n            if reg in self._ADDR20:"},
+        {"file": P + "emulator.py", "old": "            mask = (1 << (REGISTER_SIZE[reg] * 8)) - 1\n            if reg in (\n                RegisterName.PC,\n                RegisterName.X,\n                RegisterName.Y,\n                RegisterName.U,\n                RegisterName.S,\n            ):",
+         "new": "            mask = (1 << (REGISTER_SIZE[reg] * 8)) - 1\n            if reg in self._ADDR20:"}]},
+    {"id": "neutral/fusion-fuse-result-local", "kind": "neutral", "props": ["C02", "C01", "C06"], "edits": [
+        {"file": P + "instr/opcodes.py", "old": "        if instr12 := instr1.fuse(instr2):\n            instr1 = instr12\n            continue\n",
+         "new": "        fused = instr1.fuse(instr2)\n        if fused:\n            instr1 = fused\n            continue\n"}]},
+    {"id": "neutral/set-by-name-local", "kind": "neutral", "props": ["C08"], "edits": [
+        {"file": P + "emulator.py", "old": "    def set_by_name(self, name: str, value: int) -> None:\n        self.set(RegisterName[name], value)\n",
+         "new": "    def set_by_name(self, name: str, value: int) -> None:\n        reg = RegisterName[name]\n        self.set(reg, value)\n"}]},
+    {"id": "neutral/fetch-address-commuted", "kind": "neutral", "props": ["C01", "C06", "C07"], "edits": [
+        {"file": P + "emulator.py", "old": "            addr = address + offset\n", "new": "            addr = offset + address\n"}]},
+    {"id": "neutral/fifo-snapshot-by-slices", "kind": "neutral", "props": ["C14"], "edits": [
+        {"file": "pce500/keyboard_matrix.py", "old": "        snapshot: List[int] = []\n        idx = self._head\n        while idx != self._tail:\n            snapshot.append(self._fifo[idx])\n            idx = (idx + 1) % FIFO_SIZE\n        return snapshot\n",
+         "new": "        if self._head <= self._tail:\n            return self._fifo[self._head : self._tail]\n        return self._fifo[self._head :] + self._fifo[: self._tail]\n"}]},
+    {"id": "neutral/add-rom-image-local", "kind": "neutral", "props": ["C11", "C16"], "edits": [
+        {"file": "pce500/memory.py", "old": "        \"\"\"Add ROM at arbitrary address as overlay.\"\"\"\n        self.add_overlay(\n            MemoryOverlay(\n                start=start_address,\n                end=start_address + len(rom_data) - 1,\n                name=name,\n                data=bytearray(rom_data),",
+         "new": "        \"\"\"Add ROM at arbitrary address as overlay.\"\"\"\n        image = bytearray(rom_data)\n        last = start_address + len(image) - 1\n        self.add_overlay(\n            MemoryOverlay(\n                start=start_address,\n                end=last,\n                name=name,\n                data=image,"}]},
+    {"id": "neutral/restore-lcd-presence-test", "kind": "neutral", "props": ["C16"], "edits": [
+        {"file": "pce500/emulator.py", "old": "        if not metadata or payload is None:\n            return\n        self.lcd.load_snapshot(metadata, payload)", "new": "        have_meta = bool(metadata)\n        if not have_meta:\n            return\n        if payload is None:\n            return\n        self.lcd.load_snapshot(metadata, payload)"}]},
+    {"id": "neutral/block-on-clock-local-rename", "kind": "neutral", "props": ["C18"], "edits": [
+        {"file": "sc62015/core/src/async_driver.rs", "old": "    let mut clock = current_cycle();\n    let waker = noop_waker();", "new": "    let entry_cycle = current_cycle();\n    let mut clock = entry_cycle;\n    let waker = noop_waker();"}]},
+
     # --- Rust-side changes (the crate is not compiled by the tests, so only static analysis sees them) ----------------
     {"id": "break/rust-and-writes-carry", "kind": "break", "props": ["C06"], "expect": "C06.7/flag-signature", "edits": [
         {"file": "sc62015/core/src/llama/eval.rs", "old": "                    InstrKind::And => ((lhs_val & rhs_val) & mask, None),", "new": "                    InstrKind::And => ((lhs_val & rhs_val) & mask, Some(false)),"}]},
